@@ -426,3 +426,74 @@ Theorem h3_response_without_status_refused fs : status_values fs = [] -> forall 
 Proof.
   intros E [h code] H. apply h3_response_accept_sound in H. destruct H as (_ & I & _). rewrite E in I. contradiction.
 Qed.
+
+(* ---------- responses, both directions ---------- *)
+Lemma response_pseudo_is_status name p r :
+  assoc_bytes name h3PseudoTable = Some (p, r) -> Bool.eqb false r = false -> name = bs ":status" /\ p = PsStatus.
+Proof.
+  unfold h3PseudoTable. cbn [assoc_bytes].
+  repeat match goal with |- context [bytes_eqb ?k name] =>
+    let E := fresh "E" in destruct (bytes_eqb k name) eqn:E;
+      [apply bytes_eqb_eq in E; subst name; intros H1 H2; inversion H1; subst; try discriminate H2; split; reflexivity|] end.
+  discriminate.
+Qed.
+
+Lemma step_status_exact st f st' : h3_header_step false st f = HOk st' ->
+  hd_status (hs_hdr st') = if bytes_eqb (fst f) (bs ":status") then snd f else hd_status (hs_hdr st).
+Proof.
+  destruct f as [name value]. unfold h3_header_step. cbn [fst snd].
+  destruct (negb (is_ascii name)); [discriminate|]. destruct (existsb is_upper name); [discriminate|].
+  destruct (negb (valid_field_value value)); [discriminate|].
+  destruct (is_pseudo name) eqn:P.
+  - destruct (hs_regular st); [discriminate|].
+    destruct (assoc_bytes name h3PseudoTable) as [[p r]|] eqn:A; [|discriminate].
+    destruct (Bool.eqb false r) eqn:B; [discriminate|].
+    destruct (response_pseudo_is_status name p r A B) as [-> ->].
+    intro H. inversion H; subst. reflexivity.
+  - assert (NS : bytes_eqb name (bs ":status") = false).
+    { destruct (bytes_eqb name (bs ":status")) eqn:E; [|reflexivity]. apply bytes_eqb_eq in E. subst. discriminate. }
+    rewrite NS.
+    repeat match goal with
+    | |- context [if ?c then _ else _] => destruct c; try discriminate
+    | |- context [match hs_cl ?s with _ => _ end] => destruct (hs_cl s); try discriminate
+    end; intro H; inversion H; subst; reflexivity.
+Qed.
+
+Lemma last_indep {A} (l : list A) : forall a d1 d2, last (a :: l) d1 = last (a :: l) d2.
+Proof. induction l as [|y l IH]; intros a d1 d2; [reflexivity|]. change (last (y :: l) d1 = last (y :: l) d2). apply IH. Qed.
+Lemma last_cons {A} (x : A) l d : last (x :: l) d = last l x.
+Proof. destruct l as [|y l]; [reflexivity|]. change (last (y :: l) d = last (y :: l) x). apply last_indep. Qed.
+
+Lemma loop_status_exact fs : forall st st', h3_header_loop false st fs = HOk st' ->
+  hd_status (hs_hdr st') = last (status_values fs) (hd_status (hs_hdr st)).
+Proof.
+  induction fs as [|f fs IH]; intros st st' H.
+  - cbn in H. inversion H. reflexivity.
+  - cbn [h3_header_loop] in H. destruct (h3_header_step false st f) as [st1|] eqn:S; [|discriminate].
+    apply step_status_exact in S. rewrite (IH _ _ H), S. unfold status_values. cbn [filter].
+    destruct (bytes_eqb (fst f) (bs ":status")); [|reflexivity]. cbn [map]. rewrite last_cons. reflexivity.
+Qed.
+
+(* the status the response carries: the value of the last :status field ([] when there is none) *)
+Definition response_status (fs : list field) : bytes := last (status_values fs) [].
+
+Theorem h3_response_accept_iff fs :
+  (exists r, h3_response fs = HOk r) <->
+  (rfc9114_header_section_ok false fs /\ response_status fs <> [] /\ exists c, go_atoi (response_status fs) = Some c).
+Proof.
+  unfold h3_response, response_status.
+  destruct (h3_parse_headers false fs) as [h|e] eqn:P.
+  - assert (WF : rfc9114_header_section_ok false fs) by (apply h3_headers_accept_iff_rfc9114; eauto).
+    assert (ST : hd_status h = last (status_values fs) []).
+    { unfold h3_parse_headers in P.
+      destruct (h3_header_loop false {| hs_regular := false; hs_cl := None; hs_hdr := hd_empty |} fs) as [st|] eqn:L; [|discriminate].
+      apply loop_status_exact in L. cbn [hs_hdr hd_status hd_empty] in L. rewrite <- L.
+      destruct (hs_cl st) as [[|x c]|]; try (inversion P; reflexivity).
+      destruct (parse_uint63 (x :: c)); [|discriminate]. inversion P. reflexivity. }
+    rewrite <- ST. destruct (hd_status h) as [|b s].
+    + split; [intros [r H]; discriminate|intros (_ & N & _); contradiction].
+    + destruct (go_atoi (b :: s)) as [c|].
+      * split; [intros _; split; [exact WF|split; [discriminate|eauto]]|intros _; eexists; reflexivity].
+      * split; [intros [r H]; discriminate|intros (_ & _ & [c H]); discriminate].
+  - split; [intros [r H]; discriminate|]. intros (WF & _). apply h3_headers_accept_iff_rfc9114 in WF. destruct WF as [h H]. rewrite P in H. discriminate.
+Qed.
